@@ -118,7 +118,7 @@ class Lines:
         self.P = P
         self.u = u = P.unit(PP)
         tu = P.unit(T)
-        self.t0 = time.time()
+        self.t0 = time.process_time()      # CPU time of this process: the budget bounds the work, whatever else the machine is doing
         self.EOF = tu.enum_value('TK_EOF')
         self.PUNCT = tu.enum_value('TK_PUNCT')
         if self.EOF is None or self.PUNCT is None:
@@ -217,7 +217,7 @@ class Lines:
         return DirInterp(self.P, self.u, cfg, headcut, self.posfields)
 
     def _check_budget(self):
-        if time.time() - self.t0 > BUDGET_S:
+        if time.process_time() - self.t0 > BUDGET_S:
             raise AnalysisBroken('time budget of %d s for the directive exploration used up' % BUDGET_S)
 
     # ------------------------------------------------------------------------------------------ token facts
@@ -661,6 +661,6 @@ def r189(P, rep):
                                                                     'paths_with_another_token': s['other'], 'example': s['ex']})
     rep.extra.setdefault('R18.9', {}).update({'dispatcher': L.F, 'paths': npaths, 'summaries': L.nsumm, 'sites': len(sites), 'sites_judged': judged, 'directives': sorted(L.dnames),
                                               'position_fields': sorted('%s.%s' % x for x in L.posfields),
-                                              'summarised': sorted(f for f, k in L.kind.items() if k == 'summ'), 'seconds': round(time.time() - L.t0, 1)})
+                                              'summarised': sorted(f for f, k in L.kind.items() if k == 'summ'), 'seconds': round(time.process_time() - L.t0, 1)})
     if ndir == 0 or judged < 15:
         rep.undecided('R18.9', '%s:%s:liveness' % (un, L.F), 'only %d diagnostic sites are reached with a token of the directive on %d paths of a directive iteration' % (judged, ndir), where=W)
